@@ -120,6 +120,8 @@ let to_req (tv : sexp -> 'v) (e : sexp) : 'v M.req =
   | L [A "un"; o; a] -> M.RUn (to_unop o, tv a)
   | L [A "hist"; ac; u; d; init; L ops] -> M.RHist (to_bool ac, to_cexprs u, to_zlist d, tv init, List.map (to_hreq tv) ops)
   | L [A "coef"; c] -> M.RCoef (to_cexpr c)
+  | L [A "todur"; ac; u; d; ks; kn; v] -> M.RToDur (to_bool ac, to_cexprs u, to_zlist d, to_cexpr ks, to_cexpr kn, tv v)
+  | L [A "fromdur"; ac; u; d; ks; kn; s; n] -> M.RFromDur (to_bool ac, to_cexprs u, to_zlist d, to_cexpr ks, to_cexpr kn, to_z s, to_z n)
   | _ -> failwith "bad request"
 
 (* <id> <f32|f64|q|z> <std|core|-> <request> *)
